@@ -355,4 +355,25 @@ Section Value.
     | Some g => Some (cval_scale ((if nltb O zero dt then one / dt else one) * nhalf O) g)
     | None => None
     end.
+  (* run-time modification of the components (modifycvcs): component number j (creation order) gets a new period (None = unchanged;
+     a period makes the component periodic) and a new coefficient; colvar::update_cvc_config re-evaluates the decision on the
+     modified components (after the repair; before it the decision of colvar::init was kept) *)
+  Definition sc_modify (pn : option T) (cn : T) (k : scomp) : scomp :=
+    match pn with
+    | Some P => {| sc_per := true; sc_P := P; sc_wc := sc_wc k; sc_coeff := cn; sc_exp := sc_exp k; sc_rank := sc_rank k |}
+    | None => {| sc_per := sc_per k; sc_P := sc_P k; sc_wc := sc_wc k; sc_coeff := cn; sc_exp := sc_exp k; sc_rank := sc_rank k |}
+    end.
+  Fixpoint sum_modify (j : nat) (pn : option T) (cn : T) (l : list scomp) : list scomp :=
+    match l with
+    | [] => []
+    | k :: r => match j with
+                | 0%nat => sc_modify pn cn k :: r
+                | S j' => k :: sum_modify j' pn cn r
+                end
+    end.
+  Fixpoint sum_history (l : list scomp) (mods : list (nat * option T * T)) : list scomp :=
+    match mods with
+    | [] => l
+    | (j, pn, cn) :: r => sum_history (sum_modify j pn cn l) r
+    end.
 End Value.
